@@ -40,4 +40,19 @@ LEVEL_NOTE = {k: (("Not decided" + v.split("Not decided", 1)[1]) if "Not decided
               + " Trusted: no monkey-patching in src/prov (census), external-library signature assumptions, spec tables under sa/spec, declared immutable value classes."
               for k, v in EXPLANATIONS.items()}
 NOT_APPLICABLE = {}
-THOROUGH = {}
+
+
+def _thorough():
+    from .. import thorough
+
+    return {k: thorough.make(k) for k in EXPLANATIONS}
+
+
+class _Lazy(dict):
+    def get(self, k, d=None):
+        if not self:
+            self.update(_thorough())
+        return dict.get(self, k, d)
+
+
+THOROUGH = _Lazy()
